@@ -160,7 +160,26 @@ class Prop(BaseProp):
             for f in list(tree.files):
                 tree.files[f], mdocs[f] = self.module_text(rng, f, res)
             inp = os.path.join(sb, "w", "proj")
+            links = {}
+            if rng.random() < 0.3:
+                reals = sorted(tree.files)
+                tgt = rng.choice(reals)
+                # alias next to (or above) the real file, and an alias of a file outside the tree
+                tree.files["alias_of_other.cmake"] = tree.files[tgt]
+                mdocs["alias_of_other.cmake"] = mdocs[tgt]
+                links["alias_of_other.cmake"] = os.path.join(inp, tgt)
+                tree.files["alias_outside.cmake"] = "function(outside_fn)\nendfunction()\n"
+                mdocs["alias_outside.cmake"] = None
+                links["alias_outside.cmake"] = os.path.join(sb, "w", "shared_elsewhere", "outside.cmake")
             tree.write(inp)
+            for rel_, target_ in links.items():
+                if not os.path.exists(target_):
+                    os.makedirs(os.path.dirname(target_), exist_ok=True)
+                    os.replace(os.path.join(inp, rel_), target_)
+                else:
+                    os.remove(os.path.join(inp, rel_))
+                os.symlink(target_, os.path.join(inp, rel_))
+                res.count("symlinked_files")
             cwd = os.path.join(sb, "w")
             # further inputs in the same invocation: a second directory and a lone file, documented after the first
             multi = rng.random() < 0.35
@@ -176,7 +195,11 @@ class Prop(BaseProp):
                     f.write("function(y)\nendfunction()\n")
                 extra_inputs = [d2, lone]
                 res.count("multi_input_invocations")
-            o = runner.run_main([rng.choice([inp, "proj", "proj/"])] + extra_inputs + ["-r"] + base_argv, cwd=cwd, home=home)
+            spelled = rng.choice([inp, "proj", "proj/", ".", "./", "proj/../proj"])
+            if spelled in (".", "./"):
+                cwd = inp
+            o = runner.run_main([spelled] + extra_inputs + ["-r"] + base_argv, cwd=cwd, home=home)
+            res.see("input_spelling", spelled if not os.path.isabs(spelled) else "<absolute>")
             wit = {"argv": base_argv, "settings": rstcfg, "tree_files": sorted(tree.files), "extra_inputs": extra_inputs}
             if not o.ok:
                 res.violate(o.crash_class() or f"exit:{o.exit_code}", str(o.exc)[:200], wit)
